@@ -17,6 +17,13 @@ pub struct C14;
 struct Case {
     kind: String, // "idem" | "force"
     model: Model,
+    /// an earlier state of the project that was generated first (its leftovers - an
+    /// events.ts nobody needs any more, a record for other sources - are what the
+    /// judged runs start from)
+    #[serde(default)]
+    prelude: Option<Model>,
+    #[serde(default)]
+    flags: Vec<String>,
     cfg: Cfg,
     setup: Setup,
     /// idem: run 0 generates, the rest repeat. force: run 0 prepares, run 1 is judged
@@ -97,7 +104,39 @@ impl Check for C14 {
         let mut gp = GenParams::swarm(&mut r.split("params"));
         // the quantifier names 1..6 source files: stratify
         gp.n_files = 1 + ((i / setups.len() as u64) % 6) as usize;
-        let model = gen_model(&mut r.split("model"), &gp);
+        let mut mr = r.split("model");
+        let mut model = gen_model(&mut mr, &gp);
+        let mut flags = vec![];
+        super::c13::add_specials(&mut mr, &mut model, &mut flags, true);
+        // a quarter of the worlds were something else before: more events, one more command
+        let prelude = if i % 4 == 1 {
+            let before = model.clone();
+            let mut stripped = false;
+            for f in &mut model.files {
+                for it in &mut f.items {
+                    if let crate::model::Item::Cmd(c) = it {
+                        if !c.emits.is_empty() {
+                            c.emits.clear();
+                            stripped = true;
+                        }
+                    }
+                }
+            }
+            if !stripped {
+                if let Some((m2, _)) = crate::edits::gen_edit(&mut mr, "remove_command", &model) {
+                    model = m2;
+                    stripped = true;
+                }
+            }
+            if stripped {
+                flags.push("prelude".into());
+                Some(before)
+            } else {
+                None
+            }
+        } else {
+            None
+        };
         let mut cr = r.split("cfg");
         let cfg = gen_cfg(&mut cr, &setup);
         let force_kind = i % 3 == 2;
@@ -124,6 +163,8 @@ impl Check for C14 {
         serde_json::to_value(Case {
             kind: if force_kind { "force".into() } else { "idem".into() },
             model,
+            prelude,
+            flags,
             cfg,
             setup,
             procs,
@@ -144,7 +185,22 @@ impl Check for C14 {
                 return co;
             }
         };
-        let w = scen::materialise(env, &c.model, &c.cfg, &c.setup);
+        let w = match &c.prelude {
+            Some(p) => {
+                let w = scen::materialise(env, p, &c.cfg, &c.setup);
+                let r = scen::run_tool(env, &w, &c.setup, &c.cfg, ProcSpec::plain(0x9e1d), false, false);
+                if !r.res.status.is_ok() {
+                    co.discard = Some(format!("prelude generation: {}", r.res.status.short()));
+                    w.destroy();
+                    return co;
+                }
+                co.count("processes", 1);
+                co.count("worlds_with_an_earlier_generated_state", 1);
+                w.write_sources(&c.model);
+                w
+            }
+            None => scen::materialise(env, &c.model, &c.cfg, &c.setup),
+        };
         let n_files = c.model.files.len();
         let n_cmd_files = c
             .model
@@ -398,10 +454,17 @@ impl Check for C14 {
                 out.push(d);
             }
         }
-        for m in crate::shrink::shrink_model(&c.model) {
+        if c.prelude.is_some() {
             let mut d = c.clone();
-            d.model = m;
+            d.prelude = None;
             out.push(d);
+        }
+        if c.prelude.is_none() {
+            for m in crate::shrink::shrink_model(&c.model) {
+                let mut d = c.clone();
+                d.model = m;
+                out.push(d);
+            }
         }
         for k in c.cfg.mappings.keys() {
             let mut d = c.clone();
